@@ -49,7 +49,9 @@ def run(tier):
     per_tree = len(configs) if tier == "thorough" else 3
     by_cfg = {c: [] for c in configs}
     for ti, t in enumerate(trees):
-        cs = configs if per_tree >= len(configs) else random.Random(C.seed() * 77 + ti).sample(configs, per_tree)
+        # (quick: the depth-3 chains under one seeded configuration each, the rest under three)
+        n_cfg = 1 if tier == "quick" and ti >= len(trees) - exprgen.N_CHAIN3[tier] else per_tree
+        cs = configs if n_cfg >= len(configs) else random.Random(C.seed() * 77 + ti).sample(configs, n_cfg)
         for c in cs:
             by_cfg[c].append(ti)
     scripts = []
